@@ -916,7 +916,8 @@ class ArgumentParser(ParserDeprecations, ActionsContainer, ArgumentLinking, argp
 
         if fsspec_support:
             try:
-                path_sw = Path(path, mode="sw")
+                # mode "s" only classifies the path: with "sw" an fsspec file would be opened for writing, i.e. emptied
+                path_sw = Path(path, mode="s")
             except TypeError:
                 pass
             else:
@@ -924,8 +925,14 @@ class ArgumentParser(ParserDeprecations, ActionsContainer, ArgumentLinking, argp
                     if multifile:
                         raise NotImplementedError(f"multifile=True not supported for fsspec paths: {path}")
                     fsspec = import_fsspec("ArgumentParser.save")
-                    with fsspec.open(path, "w") as f:
-                        f.write(self.dump(cfg, **dump_kwargs))  # type: ignore[arg-type]
+                    if not overwrite:
+                        fs, fs_path = fsspec.core.url_to_fs(path_sw.absolute)
+                        if fs.isfile(fs_path):
+                            raise ValueError(f"Refusing to overwrite existing file: {path_sw.absolute}")
+                    # validate and serialise before the file is opened, so that a failure leaves it untouched
+                    content = self.dump(cfg, **dump_kwargs)  # type: ignore[arg-type]
+                    with fsspec.open(path_sw.absolute, "w") as f:
+                        f.write(content)
                     return
 
         path_fc = Path(path, mode="fc")
